@@ -6,27 +6,31 @@ namespace Props.C19
 open Py Xs.Ctx
 
 /-! Interleaved semantics (`Ctx/Conc.lean`): any number of threads, each inside
-`XmlContext.build(c, parent_ns)`, inside `find_types(q)` (with the lazy
-`build_xsi_cache` as repaired in 556b985: read `len(sys.modules)`, build the
-index in a local dict, publish it with one assignment, write `sys_modules`) or
-inside `reset()`, share one context; a schedule is a list of thread numbers,
-each entry lets that thread perform one step.  `xsi_cache` is a reference into
-a heap of dict objects. -/
+`XmlContext.build(c, parent_ns)`, inside a lookup (`find_types(q)`,
+`find_type(q)`, `find_subclass(c, q)` — with the lazy `build_xsi_cache` as
+repaired in 556b985: read `len(sys.modules)`, build the index in a local dict,
+publish it with one assignment, write `sys_modules`), inside
+`find_type_by_fields(names)` (the same refresh, then a scan of
+`xsi_cache.values()`: one step per `next()` of the dict iterator, including the
+`local_names_match` builds of the visited entry; the iterator fails with
+`RuntimeError` when the dict has changed size) or inside `reset()`, share one
+context; a schedule is a list of thread numbers, each entry lets that thread
+perform one step.  `xsi_cache` is a reference into a heap of dict objects. -/
 
 /-- **build_race_benign**: for every set of threads (none of which calls
-`reset()`) and *every* schedule, a thread that has finished `build(c, p)` got
-exactly the metadata it gets when run alone on a fresh context — provided no
-namespace-less class is requested under two parent namespaces (the sequential
-defect C14-F1).  The check-then-insert race on `cache` can build a class twice
-but never publishes different or partial metadata, and `cache[clazz]` never
-raises `KeyError`. -/
+`reset()` or scans by fields) and *every* schedule, a thread that has finished
+`build(c, p)` got exactly the metadata it gets when run alone on a fresh context
+— provided no namespace-less class is requested under two parent namespaces
+(the sequential defect C14-F1).  The check-then-insert race on `cache` can build
+a class twice but never publishes different or partial metadata, and
+`cache[clazz]` never raises `KeyError`.  (With scans: `concurrent_safe_with_scans`.) -/
 theorem build_race_benign (U : Universe) (w : World) (progs : List Prog) (schedule : List Nat)
-    (hnr : noReset progs) (hc : consistent U (progUses progs)) :
+    (hnr : noReset progs) (hns : noScan progs) (hc : consistent U (progUses progs)) :
     ∀ th ∈ (runSched U w (Sys.start State.init progs) schedule).threads,
       ∀ c p o, th.prog = .build c p → th.st = .done o → o = Prog.alone U w (.build c p) := by
   intro th hth c p o hp hs
   have hI := runSched_inv hc w schedule _
-    (SysInv.start U progs hnr State.init (by intro c m h; simp [State.init] at h))
+    (SysInv.start U progs hnr hns State.init (by intro c m h; simp [State.init] at h))
   have := hI.threads th hth
   unfold ThreadOK at this
   rw [hp] at this
@@ -37,12 +41,13 @@ theorem build_race_benign (U : Universe) (w : World) (progs : List Prog) (schedu
 /-- the same on a context that already holds metadata, e.g. one that served
 earlier (admissible) calls: only the cache invariant is needed -/
 theorem build_race_benign_warm_cache (U : Universe) (w : World) (progs : List Prog)
-    (schedule : List Nat) (s0 : State) (hnr : noReset progs) (hc : consistent U (progUses progs))
+    (schedule : List Nat) (s0 : State) (hnr : noReset progs) (hns : noScan progs)
+    (hc : consistent U (progUses progs))
     (h0 : ∀ c m, s0.cache.lookup c = some m → ∃ p, (c, p) ∈ progUses progs ∧ pureBuild U c p = .ok m) :
     ∀ th ∈ (runSched U w (Sys.start s0 progs) schedule).threads,
       ∀ c p o, th.prog = .build c p → th.st = .done o → o = Prog.alone U w (.build c p) := by
   intro th hth c p o hp hs
-  have hI := runSched_inv hc w schedule _ (SysInv.start U progs hnr s0 h0)
+  have hI := runSched_inv hc w schedule _ (SysInv.start U progs hnr hns s0 h0)
   have := hI.threads th hth
   unfold ThreadOK at this
   rw [hp] at this
@@ -58,26 +63,28 @@ def oneU : Universe :=
 
 def w1 : World := ⟨1, 0⟩
 def qPA : Str := "{urn:a}PA".toList
+abbrev findPA : Prog := .lookup .types qPA
 
 /-- the hypotheses of `build_race_benign` are satisfiable with racing threads -/
-example : noReset [.build 0 none, .build 0 none, .findTypes qPA, .build 0 (some "urn:p".toList)] ∧
-    consistent oneU (progUses [.build 0 none, .build 0 none, .findTypes qPA, .build 0 (some "urn:p".toList)]) := by
+example : noReset [.build 0 none, .build 0 none, findPA, .build 0 (some "urn:p".toList)] ∧
+    noScan [.build 0 none, .build 0 none, findPA, .build 0 (some "urn:p".toList)] ∧
+    consistent oneU (progUses [.build 0 none, .build 0 none, findPA, .build 0 (some "urn:p".toList)]) := by
   decide
 
 /-- **xsi_lookup_linearizable** — the full-strength statement for the type
-index, false before 556b985, now proved: for every number of threads (builds
-and lookups), **every schedule** and every start state whose stamp is not lying
-(cold, stale after an import, or current), every `find_types(q)` that finishes
-returns exactly what it returns alone: `pureTypes U w q`.  Every dict object
-that is ever published is complete, so no lookup observes a half-built index,
-a wiped index or a doubled entry. -/
+index, false before 556b985: for every number of threads (builds and lookups of
+all three kinds), **every schedule** and every start state whose stamp is not
+lying (cold, stale after an import, or current), every `find_types(q)` /
+`find_type(q)` / `find_subclass(c, q)` that finishes returns exactly what it
+returns alone.  Every dict object that is ever published is complete, so no
+lookup observes a half-built index, a wiped index or a doubled entry. -/
 theorem xsi_lookup_linearizable (U : Universe) (w : World) (progs : List Prog) (schedule : List Nat)
-    (s0 : State) (hnr : noReset progs)
+    (s0 : State) (hnr : noReset progs) (hns : noScan progs)
     (h0 : s0.sysModules = w.mods + 1 → s0.xsi = pureIndex U w.loaded) :
     ∀ th ∈ (runSched U w (Sys.start s0 progs) schedule).threads,
-      ∀ q o, th.prog = .findTypes q → th.st = .done o → o = Prog.alone U w (.findTypes q) := by
-  intro th hth q o hp hs
-  have hI := runSched_lin w schedule _ (LinInv.start U w progs hnr s0 h0)
+      ∀ k q o, th.prog = .lookup k q → th.st = .done o → o = Prog.alone U w (.lookup k q) := by
+  intro th hth k q o hp hs
+  have hI := (runSched_lin w schedule _ (LinInv.start U w progs hnr hns s0 h0)).1
   have := hI.threads th hth
   unfold ThreadLin at this
   rw [hp] at this
@@ -86,27 +93,126 @@ theorem xsi_lookup_linearizable (U : Universe) (w : World) (progs : List Prog) (
 
 /-- on a cold context (the case that used to fail) -/
 theorem xsi_lookup_linearizable_cold (U : Universe) (w : World) (progs : List Prog)
-    (schedule : List Nat) (hnr : noReset progs) :
+    (schedule : List Nat) (hnr : noReset progs) (hns : noScan progs) :
     ∀ th ∈ (runSched U w (Sys.start State.init progs) schedule).threads,
-      ∀ q o, th.prog = .findTypes q → th.st = .done o → o = Prog.alone U w (.findTypes q) :=
-  xsi_lookup_linearizable U w progs schedule State.init hnr (by intro h; simp [State.init] at h)
+      ∀ k q o, th.prog = .lookup k q → th.st = .done o → o = Prog.alone U w (.lookup k q) :=
+  xsi_lookup_linearizable U w progs schedule State.init hnr hns (by intro h; simp [State.init] at h)
 
 /-- a stale start state (index of an older world, stamp of an older module count) is admissible -/
 example : (doBuildXsi oneU ⟨0, 0⟩ State.init).sysModules = (⟨1, 1⟩ : World).mods + 1 →
     (doBuildXsi oneU ⟨0, 0⟩ State.init).xsi = pureIndex oneU 1 := by
   decide
 
-/-- the schedule that broke the old code (thread 1 passes the staleness check,
+/-- the schedule that broke the code before 556b985 (thread 1 passes the staleness check,
 thread 0 rebuilds and stamps, thread 1 goes on to publish, thread 0 looks up) -/
 def raceSchedule : List Nat := [1, 0, 0, 0, 0, 1, 1, 0, 0]
 
 /-- … is harmless now: both threads find `PA`, once, and the published index is
 the specification (instance of `xsi_lookup_linearizable`, evaluated). -/
 theorem race_schedule_harmless :
-    (drain oneU w1 (runSched oneU w1 (Sys.start State.init [.findTypes qPA, .findTypes qPA]) raceSchedule)).results
+    (drain oneU w1 (runSched oneU w1 (Sys.start State.init [findPA, findPA]) raceSchedule)).results
       = [some (.gotTypes [0]), some (.gotTypes [0])] ∧
-    (drain oneU w1 (runSched oneU w1 (Sys.start State.init [.findTypes qPA, .findTypes qPA])
+    (drain oneU w1 (runSched oneU w1 (Sys.start State.init [findPA, findPA])
       raceSchedule)).shared.toState.xsi = pureIndex oneU 1 := by
+  decide
+
+/-! ### by-fields scans (`find_type_by_fields`) among the threads -/
+
+/-- **concurrent_safe_with_scans** (contains `scan_linearizable`): builds, lookups
+of all kinds and by-fields scans in any number, **every schedule**, scheduling
+points between any two entries the scan visits: every finished call returns what
+it returns alone.  In particular the scan never dies with "dictionary changed
+size during iteration" and its step-by-step result equals the atomic one
+(`pureFields`).  Hypotheses (all decidable): no `reset()` thread; consistent
+parent namespaces, counting that a scan builds every indexed class with
+`parent_ns=None`; if anybody scans, every indexed class is buildable (otherwise
+the scan evicts, C14-F3); the start state's stamp is not lying and its cache is
+valid. -/
+theorem concurrent_safe_with_scans (U : Universe) (w : World) (progs : List Prog)
+    (schedule : List Nat) (s0 : State) (hnr : noReset progs) (hss : scanSafe U w progs)
+    (hc : consistent U (progUsesAll U w progs))
+    (hc0 : ∀ c m, s0.cache.lookup c = some m →
+      ∃ p, (c, p) ∈ progUsesAll U w progs ∧ pureBuild U c p = .ok m)
+    (h0 : s0.sysModules = w.mods + 1 → s0.xsi = pureIndex U w.loaded) :
+    ∀ th ∈ (runSched U w (Sys.start s0 progs) schedule).threads,
+      ∀ o, th.st = .done o → o = Prog.alone U w th.prog := by
+  intro th hth o hs
+  have hI := (runSched_comb hc w schedule _ (CombInv.start U w progs hnr hss s0 hc0 h0)).1
+  have := hI.threads th hth
+  unfold ThreadAll at this
+  cases hp : th.prog with
+  | build c p => rw [hp] at this; have h2 := this.2; rw [hs] at h2; exact h2
+  | lookup k q => rw [hp] at this; rw [hs] at this; exact this
+  | scan names => rw [hp] at this; have h2 := this.2; rw [hs] at h2; exact h2
+  | reset => rw [hp] at this; exact this.elim
+
+/-- **scan_linearizable**: the result of a concurrent `find_type_by_fields` equals
+the atomic one, for every schedule -/
+theorem scan_linearizable (U : Universe) (w : World) (progs : List Prog) (schedule : List Nat)
+    (hnr : noReset progs) (hss : scanSafe U w progs) (hc : consistent U (progUsesAll U w progs)) :
+    ∀ th ∈ (runSched U w (Sys.start State.init progs) schedule).threads,
+      ∀ names o, th.prog = .scan names → th.st = .done o → o = .gotType (pureFields U w names) := by
+  intro th hth names o hp hs
+  have := concurrent_safe_with_scans U w progs schedule State.init hnr hss hc
+    (by intro c m h; simp [State.init] at h) (by intro h; simp [State.init] at h) th hth o hs
+  rw [hp] at this
+  exact this
+
+/-- **lookups_preserve_index_keys**: along every schedule, a dict object that
+holds the complete index never changes again — no lookup (hit or miss), build or
+scan inserts a key into it, removes one or touches its lists; so an iterator
+over it can never observe a size change.  (`sched ++ more`: any continuation.) -/
+theorem lookups_preserve_index_keys (U : Universe) (w : World) (progs : List Prog)
+    (sched more : List Nat) (s0 : State) (hnr : noReset progs) (hss : scanSafe U w progs)
+    (hc : consistent U (progUsesAll U w progs))
+    (hc0 : ∀ c m, s0.cache.lookup c = some m →
+      ∃ p, (c, p) ∈ progUsesAll U w progs ∧ pureBuild U c p = .ok m)
+    (h0 : s0.sysModules = w.mods + 1 → s0.xsi = pureIndex U w.loaded) (d : Nat)
+    (hd : (runSched U w (Sys.start s0 progs) sched).shared.heap[d]? = some (pureIndex U w.loaded)) :
+    (runSched U w (Sys.start s0 progs) (sched ++ more)).shared.heap[d]? = some (pureIndex U w.loaded) ∧
+    ((runSched U w (Sys.start s0 progs) (sched ++ more)).shared.dict d).map (·.1)
+      = (pureIndex U w.loaded).map (·.1) := by
+  have hI := (runSched_comb hc w sched _ (CombInv.start U w progs hnr hss s0 hc0 h0)).1
+  have h2 := (runSched_comb hc w more _ hI).2 d hd
+  rw [runSched_append]
+  exact ⟨h2, by rw [Full.dict h2]⟩
+
+/-- and the dict object a finished lookup or scan worked on was complete: after
+any thread has finished a lookup or a scan, the published object is complete -/
+theorem published_index_complete (U : Universe) (w : World) (progs : List Prog)
+    (schedule : List Nat) (hnr : noReset progs) (hss : scanSafe U w progs)
+    (hc : consistent U (progUsesAll U w progs))
+    (hstamp : (runSched U w (Sys.start State.init progs) schedule).shared.sysModules = w.mods + 1) :
+    (runSched U w (Sys.start State.init progs) schedule).shared.toState.xsi = pureIndex U w.loaded := by
+  have hI := (runSched_comb hc w schedule _ (CombInv.start U w progs hnr hss State.init
+    (by intro c m h; simp [State.init] at h) (by intro h; simp [State.init] at h))).1
+  exact Full.dict (hI.stamp hstamp)
+
+/-- three classes, three index entries; everything declared and buildable -/
+def scanU : Universe :=
+  ⟨[ { name := "PA".toList, base := none, isModel := true, inPkg := true, ns := some (some "urn:a".toList),
+       mname := none, targetNs := none, moduleNs := none, globalType := true, inner := false, bad := false,
+       fields := [⟨"x".toList, .element, none, none, none⟩] },
+     { name := "PB".toList, base := none, isModel := true, inPkg := true, ns := some (some "urn:b".toList),
+       mname := none, targetNs := none, moduleNs := none, globalType := true, inner := false, bad := false,
+       fields := [⟨"x".toList, .element, none, none, none⟩, ⟨"y".toList, .element, none, none, none⟩] } ]⟩
+
+def w2 : World := ⟨2, 0⟩
+
+/-- the hypotheses are satisfiable: a scan, a missing lookup, a hitting
+`find_type`, a `find_subclass` and a build of a cold class -/
+example :
+    let progs : List Prog := [.scan ["x".toList], .lookup .types "Nope".toList,
+      .lookup .last "{urn:b}PB".toList, .lookup (.sub 0) "{urn:a}PA".toList, .build 1 none]
+    noReset progs ∧ scanSafe scanU w2 progs ∧ consistent scanU (progUsesAll scanU w2 progs) := by
+  decide
+
+/-- a scan interleaved with a missing lookup between every two visited entries
+(the schedule on which the seeded `defaultdict` insert fails): both answer as alone -/
+example : (drain scanU w2 (runSched scanU w2
+      (Sys.start (doBuildXsi scanU w2 State.init) [.scan ["x".toList], .lookup .types "Nope".toList])
+      [0, 0, 1, 1, 0])).results
+    = [some (.gotType (pureFields scanU w2 ["x".toList])), some (.gotTypes [])] := by
   decide
 
 /-! ### what remains excluded: `reset()` racing with other calls -/
@@ -123,8 +229,8 @@ in place and zeroes the stamp, the lookup reads the emptied dict and finds no
 class, although before and after the reset it would find `PA`. -/
 theorem reset_lookup_counterexample : ¬ ConcurrentSafe oneU w1 (doBuildXsi oneU w1 State.init) := by
   intro h
-  have := h [.findTypes qPA, .reset] [0, 1, 1, 1, 0]
-    ⟨.findTypes qPA, .done (.gotTypes [])⟩ (by decide) (.gotTypes []) rfl
+  have := h [findPA, .reset] [0, 1, 1, 1, 0]
+    ⟨findPA, .done (.gotTypes [])⟩ (by decide) (.gotTypes []) rfl
   revert this
   decide
 
@@ -137,48 +243,92 @@ theorem reset_build_counterexample : ¬ ConcurrentSafe oneU w1 State.init := by
   revert this
   decide
 
-/-- without `reset()` both positive theorems apply at once: the two hypotheses
-are the only exclusions -/
+/-- `reset()` racing with a by-fields scan: `xsi_cache.clear()` changes the size
+of the dict being iterated: `RuntimeError: dictionary changed size during iteration` -/
+theorem reset_scan_counterexample : ¬ ConcurrentSafe oneU w1 (doBuildXsi oneU w1 State.init) := by
+  intro h
+  have := h [.scan ["x".toList], .reset] [0, 1, 1, 1, 0]
+    ⟨.scan ["x".toList], .done (.raised .runtime)⟩ (by decide) (.raised .runtime) rfl
+  revert this
+  decide
+
+/-- one indexed class whose metadata cannot be built -/
+def badU : Universe :=
+  ⟨[ { name := "T".toList, base := none, isModel := true, inPkg := true, ns := some (some "urn:a".toList),
+       mname := none, targetNs := none, moduleNs := none, globalType := true, inner := false, bad := true,
+       fields := [⟨"x".toList, .element, none, none, none⟩] } ]⟩
+
+/-- **also excluded (`scanSafe`), and false without it** (finding C19-F3): two
+by-fields scans on a cold context, each iterating the dict object it published
+itself, meet an unbuildable class.  The first `local_names_match` evicts it from
+the *currently published* object; the second scan still sees it in its own
+object, `local_names_match` tries to evict it again and `list.remove` raises
+`ValueError` — alone each scan simply finds nothing. -/
+theorem scan_eviction_counterexample : ¬ ConcurrentSafe badU w1 State.init := by
+  intro h
+  have := h [.scan ["x".toList], .scan ["x".toList]] [1, 0, 0, 0, 0, 1, 1, 1, 1, 0]
+    ⟨.scan ["x".toList], .done (.raised .value)⟩ (by decide) (.raised .value) rfl
+  revert this
+  decide
+
+/-- without `reset()` and without scans the two older theorems apply at once -/
 theorem concurrent_safe_partial (U : Universe) (w : World) (progs : List Prog) (schedule : List Nat)
-    (hnr : noReset progs) (hc : consistent U (progUses progs)) :
+    (hnr : noReset progs) (hns : noScan progs) (hc : consistent U (progUses progs)) :
     ∀ th ∈ (runSched U w (Sys.start State.init progs) schedule).threads,
       ∀ o, th.st = .done o → o = Prog.alone U w th.prog := by
   intro th hth o hs
   cases hp : th.prog with
-  | build c p => exact build_race_benign U w progs schedule hnr hc th hth c p o hp hs
-  | findTypes q => exact xsi_lookup_linearizable_cold U w progs schedule hnr th hth q o hp hs
+  | build c p => exact build_race_benign U w progs schedule hnr hns hc th hth c p o hp hs
+  | lookup k q => exact xsi_lookup_linearizable_cold U w progs schedule hnr hns th hth k q o hp hs
+  | scan names =>
+    have hI := (runSched_lin w schedule _
+      (LinInv.start U w progs hnr hns State.init (by intro h; simp [State.init] at h))).1
+    have := hI.threads th hth
+    unfold ThreadLin at this
+    rw [hp] at this
+    exact this.elim
   | reset =>
-    -- no thread of the run has program `reset`
-    have hI := runSched_lin w schedule _
-      (LinInv.start U w progs hnr State.init (by intro h; simp [State.init] at h))
+    have hI := (runSched_lin w schedule _
+      (LinInv.start U w progs hnr hns State.init (by intro h; simp [State.init] at h))).1
     have := hI.threads th hth
     unfold ThreadLin at this
     rw [hp] at this
     exact this.elim
 
-/-- **no thread ever blocks or loops**: whatever the shared state looks like
-(i.e. whatever the other threads did), each step of an unfinished thread strictly
-decreases the number of steps it still has to perform; so under any fair
-schedule every call returns. -/
-theorem thread_progress (U : Universe) (w : World) (s : CState) (st : TState) (h : st.isDone = false) :
-    ((stepT U w s st).2).remaining (bindingClasses U w.loaded).length
-      < st.remaining (bindingClasses U w.loaded).length := by
+/-- **no thread ever blocks or loops**: whatever the other threads did, each
+step of an unfinished thread strictly decreases the number of steps it still has
+to perform (`m` bounds the number of entries of the published dict, which is
+what a scan still has to visit); so under any fair schedule every call returns. -/
+theorem thread_progress (U : Universe) (w : World) (s : CState) (st : TState) (m : Nat)
+    (hm : (s.dict s.ref).length ≤ m) (h : st.isDone = false) :
+    ((stepT U w s st).2).remaining (bindingClasses U w.loaded).length m
+      < st.remaining (bindingClasses U w.loaded).length m := by
+  have henter : ∀ (s' : CState) (g : Goal), s'.heap = s.heap → s'.ref = s.ref →
+      (g.enter s').remaining (bindingClasses U w.loaded).length m ≤ m + 2 := by
+    intro s' g hh hr
+    have : (s'.dict s'.ref).length ≤ m := by
+      unfold CState.dict at hm ⊢; rw [hh, hr]; exact hm
+    cases g with
+    | lookup k q => simp [Goal.enter, TState.remaining]
+    | scan names => simp [Goal.enter, TState.remaining]; omega
   cases st with
   | bCheck c p =>
     simp only [stepT]
     split
     · simp [TState.remaining]
     · split <;> simp [TState.remaining]
-  | bWrite c m => simp [stepT, TState.remaining]
+  | bWrite c m' => simp [stepT, TState.remaining]
   | bRead c => simp only [stepT]; split <;> simp [TState.remaining]
-  | xCheck q =>
+  | xCheck g =>
     simp only [stepT, afterLocal]
     split
-    · simp [TState.remaining]
+    · have := henter s g rfl rfl
+      show (g.enter s).remaining _ m < (bindingClasses U w.loaded).length + 6 + m
+      omega
     · split
       · simp [TState.remaining]
       · simp [TState.remaining]
-  | xLocal q todo acc =>
+  | xLocal g todo acc =>
     cases todo with
     | nil => simp [stepT, TState.remaining]
     | cons c rest =>
@@ -186,10 +336,23 @@ theorem thread_progress (U : Universe) (w : World) (s : CState) (st : TState) (h
       split
       · simp [TState.remaining]
       · simp [TState.remaining]
-  | xPublish q acc => simp [stepT, TState.remaining]
-  | xStamp q => simp [stepT, TState.remaining]
-  | xContains q d => simp only [stepT]; split <;> simp [TState.remaining]
-  | xGet q d => simp only [stepT]; split <;> simp [TState.remaining]
+  | xPublish g acc => simp [stepT, TState.remaining]
+  | xStamp g =>
+    simp only [stepT]
+    have := henter { s with sysModules := w.mods + 1 } g rfl rfl
+    show (g.enter { s with sysModules := w.mods + 1 }).remaining _ m < 3 + m
+    omega
+  | xContains k q d => simp only [stepT]; split <;> simp [TState.remaining]
+  | xGet k q d => simp only [stepT]; split <;> simp [TState.remaining]
+  | sScan names d todo n0 acc =>
+    simp only [stepT]
+    split
+    · simp [TState.remaining]
+    · cases todo with
+      | nil => simp [TState.remaining]
+      | cons k rest =>
+        simp only
+        split <;> simp [TState.remaining]
   | rCache => simp [stepT, TState.remaining]
   | rXsi d => simp [stepT, TState.remaining]
   | rStamp => simp [stepT, TState.remaining]
